@@ -133,6 +133,16 @@ Example C03_example_aggregate_bounds :
   map (fun a => agg_commit_ok (ex_agg_hdr a) ex_agg_ve) [0; 1; 4; 5; 7; 8] = [false; true; true; false; false; false].
 Proof. vm_compute. reflexivity. Qed.
 
+(* non-vacuity of the partial tie-break theorem: its hypotheses are satisfiable and the outcome is PTieRestored *)
+Definition ex_old_x : xenv := mkXE true true true true [(true, true)] true false true (id 104) 2 (id 102) 1 true 77.
+Definition ex_tenv : tenv := mkTE (mkDE true true 76) (mkVE 1000 10 1065 15360 true [ad 9; ad 7; ad 8] 0 false 3 0 None true true true) ex_old_x.
+Example C03_example_tiebreak_restored :
+  fst (process ex_node ex_new TieBreak ex_pe (ex_ve false) (ex_xe 79) ex_tenv) = PTieRestored RSignature /\
+  reexecution_deterministic ex_node ex_tenv ex_tip /\
+  snd (process ex_node ex_new TieBreak ex_pe (ex_ve false) (ex_xe 79) ex_tenv)
+  = mkNode [ex_parent; ex_tip] 77 1 [PDelete (id 5); PNew (id 5) 2] (id 103).
+Proof. vm_compute. repeat split; try reflexivity; discriminate. Qed.
+
 (* the full "rejected blocks change nothing" statement is false of process: tie-break with an invalid competing block *)
 Theorem C03_process_reject_no_change_refuted : exists s b k p v x t,
   accepted_p (fst (process s b k p v x t)) = false /\
